@@ -3,8 +3,9 @@
 import sys, os, shutil, json, re
 srcprop, m, caught, classes = sys.argv[1], sys.argv[2], sys.argv[3], sys.argv[4]
 prop = sys.argv[5] if len(sys.argv) > 5 else srcprop
+dstname = sys.argv[6] if len(sys.argv) > 6 else f"{prop}-{m}"
 src = f"/verif/.pending/{srcprop}/{m}"
-dst = f"/verif/seeded/{prop}-{m}"
+dst = f"/verif/seeded/{dstname}"
 os.makedirs(dst, exist_ok=True)
 for f in os.listdir(src):
     if f.endswith('.log'): continue
